@@ -11,6 +11,7 @@ import Driver.KeepAlive
 import Driver.Sampling
 import Driver.Naming
 import Driver.Wrappers
+import Driver.Emf
 /-!
 `driver <engine>`: reads one request per line on stdin, prints one reply per line.
 Every engine is a pure function `String → String` of the request line (stateful models receive the
@@ -30,7 +31,8 @@ def engines : List (String × (String → String)) := [
   ("keepalive", Driver.KeepAlive.handle),
   ("sampling", Driver.Sampling.handle),
   ("naming", Driver.Naming.handle),
-  ("wrappers", Driver.Wrappers.handle)
+  ("wrappers", Driver.Wrappers.handle),
+  ("emf", Driver.Emf.handle)
 ]
 
 partial def loop (h : IO.FS.Stream) (out : IO.FS.Stream) (f : String → String) : IO Unit := do
